@@ -3,6 +3,7 @@
 From Coq Require Import ZArith List Bool Lia.
 From Common Require Import CxxSem.
 From C17.gen Require Import GenIdx.
+From C17 Require Import Checked.
 Import ListNotations.
 Local Open Scope Z_scope.
 
@@ -29,7 +30,7 @@ Ltac gen_unfold :=
        multidim_index_iterator2_dims multidim_index_iterator2_current_index
        multidim_index_iterator3_dims multidim_index_iterator3_current_index
        vec2_x vec2_y vec3_x vec3_y vec3_z];
-  cbn [bop uop cmp cast ilit ofbool tobool S IZ MZ z_bop z_cmp z_uop].
+  cbn [bop uop cmp cast ilit ofbool tobool S IZ MZ OZ o_bop z_bop z_cmp z_uop].
 
 (* ------------------------------------------------------- pure arithmetic *)
 Lemma quot_rem_unique a b q r : 0 <= r < b -> a = b * q + r -> 0 <= q -> Z.quot a b = q /\ Z.rem a b = r.
@@ -154,6 +155,13 @@ Proof.
 Qed.
 
 (* ---------------------------------------- machine reading = ideal reading *)
+(* The two readings have the same carrier (Z) but are different instances of the generated
+   records, so values are moved across with toM2/toM3 (componentwise identity). *)
+Definition toM2 (v : vec2 IZ) : vec2 MZ := mk_vec2 MZ (vec2_x v) (vec2_y v).
+Definition toM3 (v : vec3 IZ) : vec3 MZ := mk_vec3 MZ (vec3_x v) (vec3_y v) (vec3_z v).
+Definition mseq2 (d : vec2 IZ) := multidim_index_sequence2_mk__v2ul MZ (toM2 d).
+Definition mseq3 (d : vec3 IZ) := multidim_index_sequence3_mk__v3ul MZ (toM3 d).
+
 Lemma wrap_u64_small z : 0 <= z < 2 ^ 64 -> wrap U64 z = z.
 Proof. intro H. cbv [wrap isfloat signed bits]. rewrite Z.mod_small; lia. Qed.
 Lemma wrap_i32_small z : - 2 ^ 31 <= z < 2 ^ 31 -> wrap I32 z = z.
@@ -162,106 +170,225 @@ Proof.
   rewrite Z.mod_small; lia.
 Qed.
 
+(* remove every wrap whose argument is wrap-free and provably in range, innermost first *)
+Ltac no_wrap_in z := lazymatch z with context [wrap] => fail | _ => idtac end.
 Ltac wrap_small :=
   repeat match goal with
-         | |- context [wrap U64 ?z] => rewrite (wrap_u64_small z) by nia
-         | |- context [wrap I32 ?z] => rewrite (wrap_i32_small z) by nia
+         | |- context [wrap U64 ?z] => no_wrap_in z; rewrite (wrap_u64_small z) by nia
+         | |- context [wrap I32 ?z] => no_wrap_in z; rewrite (wrap_i32_small z) by nia
          end.
+Ltac wrap_done := wrap_small; lazymatch goal with |- context [wrap] => fail "a wrap remains" | _ => reflexivity end.
 
-(* multidim_index_sequence: all size_t.  If the extent's total is below 2^64 nothing wraps. *)
+Ltac munfold := cbv [mseq2 mseq3 seq2 seq3]; cbv [toM2 toM3]; gen_unfold.
+
+(* multidim_index_sequence: everything is size_t.  If the total is below 2^64 nothing wraps. *)
+Lemma total2_machine (d : vec2 IZ) : 0 <= vec2_x d -> 0 <= vec2_y d -> total2 d < 2 ^ 64 ->
+  multidim_index_sequence2_total_indices__ MZ (mseq2 d) = total2 d.
+Proof. destruct d as [dx dy]. unfold total2. munfold. intros. wrap_done. Qed.
+
+Lemma total3_machine (d : vec3 IZ) : 0 < vec3_x d -> 0 < vec3_y d -> 0 < vec3_z d -> total3 d < 2 ^ 64 ->
+  multidim_index_sequence3_total_indices__ MZ (mseq3 d) = total3 d.
+Proof.
+  destruct d as [dx dy dz]. unfold total3. munfold. intros Hx Hy Hz Ht.
+  assert (dx * dy <= dx * dy * dz) by nia. wrap_done.
+Qed.
+
+Lemma flatten2_machine (d c : vec2 IZ) : in2 d c -> total2 d < 2 ^ 64 ->
+  multidim_index_sequence2_flatten__v2ul MZ (mseq2 d) (toM2 c) =
+  multidim_index_sequence2_flatten__v2ul IZ (seq2 d) c.
+Proof.
+  destruct d as [dx dy], c as [x y]. unfold in2, total2. munfold. intros (Hx & Hy) Ht.
+  assert (0 <= dx * y /\ x + dx * y < dx * dy) by nia. wrap_done.
+Qed.
+
+Lemma reshape2_machine (d : vec2 IZ) (i : Z) : 0 < vec2_x d -> total2 d < 2 ^ 64 -> 0 <= i < total2 d ->
+  multidim_index_sequence2_reshape__ul MZ (mseq2 d) i = toM2 (multidim_index_sequence2_reshape__ul IZ (seq2 d) i).
+Proof.
+  destruct d as [dx dy]. unfold total2. munfold. intros Hx Ht Hi.
+  pose proof (rem_bound i dx ltac:(lia) Hx). pose proof (quot_lt_bound i dx dy ltac:(lia) Hx).
+  assert (dy <= dx * dy) by nia. wrap_done.
+Qed.
+
 Lemma flatten3_machine (d c : vec3 IZ) : in3 d c -> total3 d < 2 ^ 64 ->
-  multidim_index_sequence3_flatten__v3ul MZ (multidim_index_sequence3_mk__v3ul MZ d) c =
+  multidim_index_sequence3_flatten__v3ul MZ (mseq3 d) (toM3 c) =
   multidim_index_sequence3_flatten__v3ul IZ (seq3 d) c.
 Proof.
-  destruct d as [dx dy dz], c as [x y z]. unfold in3, total3, seq3. gen_unfold. intros (Hx & Hy & Hz) Ht.
+  destruct d as [dx dy dz], c as [x y z]. unfold in3, total3. munfold. intros (Hx & Hy & Hz) Ht.
   assert (0 <= y + dy * z < dy * dz) by nia.
   assert (0 <= dx * (y + dy * z) /\ x + dx * (y + dy * z) < dx * dy * dz) by nia.
   assert (0 <= dy * z < dy * dz) by nia.
   assert (dy * dz <= dx * dy * dz) by nia.
-  rewrite (wrap_u64_small (dy * z)) by nia.
-  rewrite (wrap_u64_small (y + dy * z)) by nia.
-  rewrite (wrap_u64_small (dx * (y + dy * z))) by nia.
-  rewrite (wrap_u64_small (x + dx * (y + dy * z))) by nia. reflexivity.
+  wrap_done.
 Qed.
 
 Lemma reshape3_machine (d : vec3 IZ) (i : Z) : 0 < vec3_x d -> 0 < vec3_y d -> 0 < vec3_z d -> total3 d < 2 ^ 64 -> 0 <= i < total3 d ->
-  multidim_index_sequence3_reshape__ul MZ (multidim_index_sequence3_mk__v3ul MZ d) i =
-  multidim_index_sequence3_reshape__ul IZ (seq3 d) i.
+  multidim_index_sequence3_reshape__ul MZ (mseq3 d) i = toM3 (multidim_index_sequence3_reshape__ul IZ (seq3 d) i).
 Proof.
-  destruct d as [dx dy dz]. unfold total3, seq3. gen_unfold. intros Hx Hy Hz Ht Hi.
+  destruct d as [dx dy dz]. unfold total3. munfold. intros Hx Hy Hz Ht Hi.
   assert (Hxy : 0 < dx * dy) by nia. assert (dx * dy <= dx * dy * dz) by nia.
   pose proof (quot_lt_bound i (dx * dy) dz ltac:(lia) Hxy) as Hzb.
   pose proof (quot_rem_eq i (dx * dy) ltac:(lia)) as He.
   pose proof (rem_bound i (dx * dy) ltac:(lia) Hxy) as Hr.
   rewrite (wrap_u64_small (dx * dy)) by nia.
   set (z := Z.quot i (dx * dy)) in *.
-  rewrite (wrap_u64_small z) by nia.
   assert (0 <= z * dx <= z * dx * dy) by nia.
   assert (z * dx * dy <= i) by nia.
+  rewrite (wrap_u64_small z) by nia.
   rewrite (wrap_u64_small (z * dx)) by nia.
   rewrite (wrap_u64_small (z * dx * dy)) by nia.
   rewrite (wrap_u64_small (i - z * dx * dy)) by nia.
   set (j := i - z * dx * dy) in *.
   assert (0 <= j < dx * dy) by (unfold j; nia).
   pose proof (rem_bound j dx ltac:(lia) Hx). pose proof (quot_lt_bound j dx dy ltac:(lia) Hx).
-  rewrite (wrap_u64_small (Z.quot j dx)) by nia.
-  rewrite (wrap_u64_small (Z.rem j dx)) by nia. reflexivity.
+  assert (dy <= dx * dy) by nia.
+  wrap_done.
 Qed.
 
 (* array3D (int extents): extents are positive ints, coordinates inside; the product fits 64 bits *)
 Definition int_extent (d : vec3 IZ) : Prop :=
   0 < vec3_x d < 2 ^ 31 /\ 0 < vec3_y d < 2 ^ 31 /\ 0 < vec3_z d < 2 ^ 31.
 
-Lemma longProduct_machine (d : vec3 IZ) : int_extent d ->
-  array3D_longProduct__v3i MZ d = array3D_longProduct__v3i IZ d.
-Proof.
-  destruct d as [dx dy dz]. unfold int_extent. gen_unfold. intros (Hx & Hy & Hz).
-  rewrite (wrap_u64_small dx) by lia. rewrite (wrap_u64_small dy) by lia. rewrite (wrap_u64_small dz) by lia.
-  assert (0 <= dx * dy < 2 ^ 62) by nia.
-  rewrite (wrap_u64_small (dx * dy)) by lia.
-  assert (0 <= dx * dy * dz < 2 ^ 93) by nia.
-  (* three 31-bit extents: the product is below 2^93 and may exceed 2^64 only if the caller's
-     volume does; the statement therefore carries the hypothesis in longProduct_machine' *)
-Abort.
-
 Lemma longProduct_machine (d : vec3 IZ) : int_extent d -> total3 d < 2 ^ 64 ->
-  array3D_longProduct__v3i MZ d = array3D_longProduct__v3i IZ d.
+  array3D_longProduct__v3i MZ (toM3 d) = array3D_longProduct__v3i IZ d.
 Proof.
-  destruct d as [dx dy dz]. unfold int_extent, total3. gen_unfold. intros (Hx & Hy & Hz) Ht.
-  rewrite (wrap_u64_small dx) by lia. rewrite (wrap_u64_small dy) by lia. rewrite (wrap_u64_small dz) by lia.
-  assert (0 <= dx * dy < 2 ^ 62) by nia.
-  rewrite (wrap_u64_small (dx * dy)) by lia.
-  rewrite (wrap_u64_small (dx * dy * dz)) by nia. reflexivity.
+  destruct d as [dx dy dz]. unfold int_extent, total3. munfold. intros (Hx & Hy & Hz) Ht.
+  assert (0 <= dx * dy < 2 ^ 62) by nia. wrap_done.
 Qed.
 
 Lemma longIndex_machine (d c : vec3 IZ) : int_extent d -> in3 d c -> total3 d < 2 ^ 64 ->
-  array3D_longIndex__v3i_v3i MZ c d = array3D_longIndex__v3i_v3i IZ c d.
+  array3D_longIndex__v3i_v3i MZ (toM3 c) (toM3 d) = array3D_longIndex__v3i_v3i IZ c d.
 Proof.
-  destruct d as [dx dy dz], c as [x y z]. unfold int_extent, in3, total3. gen_unfold.
+  destruct d as [dx dy dz], c as [x y z]. unfold int_extent, in3, total3. munfold.
   intros (Hx & Hy & Hz) (Cx & Cy & Cz) Ht.
-  rewrite (wrap_u64_small x), (wrap_u64_small y), (wrap_u64_small z), (wrap_u64_small dx), (wrap_u64_small dy) by lia.
   assert (0 <= y + dy * z < dy * dz) by nia.
   assert (dy * dz <= dx * dy * dz) by nia.
   assert (0 <= dx * (y + dy * z) /\ x + dx * (y + dy * z) < dx * dy * dz) by nia.
-  rewrite (wrap_u64_small (dy * z)) by nia.
-  rewrite (wrap_u64_small (y + dy * z)) by nia.
-  rewrite (wrap_u64_small (dx * (y + dy * z))) by nia.
-  rewrite (wrap_u64_small (x + dx * (y + dy * z))) by nia. reflexivity.
+  assert (0 <= dy * z < dy * dz) by nia.
+  wrap_done.
 Qed.
 
 Lemma coordsOf_machine (d : vec3 IZ) (i : Z) : int_extent d -> 0 <= i < total3 d -> total3 d < 2 ^ 64 ->
-  array3D_coordsOf__ul_v3i MZ i d = array3D_coordsOf__ul_v3i IZ i d.
+  array3D_coordsOf__ul_v3i MZ i (toM3 d) = toM3 (array3D_coordsOf__ul_v3i IZ i d).
 Proof.
-  destruct d as [dx dy dz]. unfold int_extent, total3. gen_unfold. intros (Hx & Hy & Hz) Hi Ht.
+  destruct d as [dx dy dz]. unfold int_extent, total3. munfold. intros (Hx & Hy & Hz) Hi Ht.
   rewrite (wrap_u64_small dx), (wrap_u64_small dy) by lia.
   pose proof (rem_bound i dx ltac:(lia) ltac:(lia)).
   assert (0 <= Z.quot i dx < dy * dz) by (apply quot_lt_bound; nia).
   assert (dy * dz <= dx * dy * dz) by nia.
   set (j := Z.quot i dx) in *.
   pose proof (rem_bound j dy ltac:(lia) ltac:(lia)). pose proof (quot_lt_bound j dy dz ltac:(lia) ltac:(lia)).
-  rewrite (wrap_u64_small (Z.rem i dx)) by lia.
-  rewrite (wrap_u64_small j) by lia.
-  rewrite (wrap_u64_small (Z.rem j dy)) by lia.
-  rewrite (wrap_u64_small (Z.quot j dy)) by lia.
-  rewrite !wrap_i32_small by lia. reflexivity.
+  wrap_done.
+Qed.
+
+(* ---------------------------------------- overflow-checked reading (Checked.v) *)
+(* "f OZ (inputs) = Some v": every operation and conversion in the C++ expression produced its
+   mathematically exact value within its C type; nothing wrapped, no divisor was zero. *)
+Definition toO2 (v : vec2 IZ) : vec2 OZ := mk_vec2 OZ (Some (vec2_x v)) (Some (vec2_y v)).
+Definition toO3 (v : vec3 IZ) : vec3 OZ := mk_vec3 OZ (Some (vec3_x v)) (Some (vec3_y v)) (Some (vec3_z v)).
+Definition oseq2 (d : vec2 IZ) := multidim_index_sequence2_mk__v2ul OZ (toO2 d).
+Definition oseq3 (d : vec3 IZ) := multidim_index_sequence3_mk__v3ul OZ (toO3 d).
+
+Ltac no_chk_in z := lazymatch z with context [chk] => fail | _ => idtac end.
+Ltac chk_step :=
+  match goal with
+  | |- context [chk U64 ?z] => no_chk_in z; rewrite (chk_u64 z) by nia
+  | |- context [chk I32 ?z] => no_chk_in z; rewrite (chk_i32 z) by nia
+  | |- context [?y =? 0] => rewrite (proj2 (Z.eqb_neq y 0)) by nia
+  end; cbv beta iota delta [o_bop z_bop].
+Ltac chk_done := repeat chk_step; lazymatch goal with |- context [chk] => fail "a check remains" | _ => reflexivity end.
+Ltac ounfold := cbv [oseq2 oseq3 seq2 seq3]; cbv [toO2 toO3]; gen_unfold.
+
+Lemma total2_checked (d : vec2 IZ) : 0 <= vec2_x d -> 0 <= vec2_y d -> total2 d < 2 ^ 64 ->
+  multidim_index_sequence2_total_indices__ OZ (oseq2 d) = Some (total2 d).
+Proof. destruct d as [dx dy]. unfold total2. ounfold. intros. chk_done. Qed.
+
+Lemma total3_checked (d : vec3 IZ) : 0 < vec3_x d -> 0 < vec3_y d -> 0 < vec3_z d -> total3 d < 2 ^ 64 ->
+  multidim_index_sequence3_total_indices__ OZ (oseq3 d) = Some (total3 d).
+Proof.
+  destruct d as [dx dy dz]. unfold total3. ounfold. intros Hx Hy Hz Ht.
+  assert (dx * dy <= dx * dy * dz) by nia. chk_done.
+Qed.
+
+Lemma flatten2_checked (d c : vec2 IZ) : in2 d c -> total2 d < 2 ^ 64 ->
+  multidim_index_sequence2_flatten__v2ul OZ (oseq2 d) (toO2 c) =
+  Some (multidim_index_sequence2_flatten__v2ul IZ (seq2 d) c).
+Proof.
+  destruct d as [dx dy], c as [x y]. unfold in2, total2. ounfold. intros (Hx & Hy) Ht.
+  assert (0 <= dx * y /\ x + dx * y < dx * dy) by nia. chk_done.
+Qed.
+
+Lemma reshape2_checked (d : vec2 IZ) (i : Z) : 0 < vec2_x d -> total2 d < 2 ^ 64 -> 0 <= i < total2 d ->
+  multidim_index_sequence2_reshape__ul OZ (oseq2 d) (Some i) = toO2 (multidim_index_sequence2_reshape__ul IZ (seq2 d) i).
+Proof.
+  destruct d as [dx dy]. unfold total2. ounfold. intros Hx Ht Hi.
+  pose proof (rem_bound i dx ltac:(lia) Hx). pose proof (quot_lt_bound i dx dy ltac:(lia) Hx).
+  assert (dy <= dx * dy) by nia. chk_done.
+Qed.
+
+Lemma flatten3_checked (d c : vec3 IZ) : in3 d c -> total3 d < 2 ^ 64 ->
+  multidim_index_sequence3_flatten__v3ul OZ (oseq3 d) (toO3 c) =
+  Some (multidim_index_sequence3_flatten__v3ul IZ (seq3 d) c).
+Proof.
+  destruct d as [dx dy dz], c as [x y z]. unfold in3, total3. ounfold. intros (Hx & Hy & Hz) Ht.
+  assert (0 <= y + dy * z < dy * dz) by nia.
+  assert (0 <= dx * (y + dy * z) /\ x + dx * (y + dy * z) < dx * dy * dz) by nia.
+  assert (0 <= dy * z < dy * dz) by nia.
+  assert (dy * dz <= dx * dy * dz) by nia.
+  chk_done.
+Qed.
+
+Lemma reshape3_checked (d : vec3 IZ) (i : Z) : 0 < vec3_x d -> 0 < vec3_y d -> 0 < vec3_z d -> total3 d < 2 ^ 64 -> 0 <= i < total3 d ->
+  multidim_index_sequence3_reshape__ul OZ (oseq3 d) (Some i) = toO3 (multidim_index_sequence3_reshape__ul IZ (seq3 d) i).
+Proof.
+  destruct d as [dx dy dz]. unfold total3. ounfold. intros Hx Hy Hz Ht Hi.
+  assert (Hxy : 0 < dx * dy) by nia. assert (dx * dy <= dx * dy * dz) by nia.
+  pose proof (quot_lt_bound i (dx * dy) dz ltac:(lia) Hxy) as Hzb.
+  pose proof (quot_rem_eq i (dx * dy) ltac:(lia)) as He.
+  pose proof (rem_bound i (dx * dy) ltac:(lia) Hxy) as Hr.
+  rewrite (chk_u64 (dx * dy)) by nia. cbv beta iota delta [o_bop z_bop].
+  rewrite (proj2 (Z.eqb_neq (dx * dy) 0)) by nia. cbv beta iota delta [o_bop z_bop].
+  set (z := Z.quot i (dx * dy)) in *.
+  assert (0 <= z * dx <= z * dx * dy) by nia.
+  assert (z * dx * dy <= i) by nia.
+  rewrite (chk_u64 z) by nia. cbv beta iota delta [o_bop z_bop].
+  rewrite (chk_u64 (z * dx)) by nia. cbv beta iota delta [o_bop z_bop].
+  rewrite (chk_u64 (z * dx * dy)) by nia. cbv beta iota delta [o_bop z_bop].
+  rewrite (chk_u64 (i - z * dx * dy)) by nia. cbv beta iota delta [o_bop z_bop].
+  set (j := i - z * dx * dy) in *.
+  assert (0 <= j < dx * dy) by (unfold j; nia).
+  pose proof (rem_bound j dx ltac:(lia) Hx). pose proof (quot_lt_bound j dx dy ltac:(lia) Hx).
+  assert (dy <= dx * dy) by nia.
+  chk_done.
+Qed.
+
+Lemma longProduct_checked (d : vec3 IZ) : int_extent d -> total3 d < 2 ^ 64 ->
+  array3D_longProduct__v3i OZ (toO3 d) = Some (array3D_longProduct__v3i IZ d).
+Proof.
+  destruct d as [dx dy dz]. unfold int_extent, total3. ounfold. intros (Hx & Hy & Hz) Ht.
+  assert (0 <= dx * dy < 2 ^ 62) by nia. chk_done.
+Qed.
+
+Lemma longIndex_checked (d c : vec3 IZ) : int_extent d -> in3 d c -> total3 d < 2 ^ 64 ->
+  array3D_longIndex__v3i_v3i OZ (toO3 c) (toO3 d) = Some (array3D_longIndex__v3i_v3i IZ c d).
+Proof.
+  destruct d as [dx dy dz], c as [x y z]. unfold int_extent, in3, total3. ounfold.
+  intros (Hx & Hy & Hz) (Cx & Cy & Cz) Ht.
+  assert (0 <= y + dy * z < dy * dz) by nia.
+  assert (dy * dz <= dx * dy * dz) by nia.
+  assert (0 <= dx * (y + dy * z) /\ x + dx * (y + dy * z) < dx * dy * dz) by nia.
+  assert (0 <= dy * z < dy * dz) by nia.
+  chk_done.
+Qed.
+
+Lemma coordsOf_checked (d : vec3 IZ) (i : Z) : int_extent d -> 0 <= i < total3 d -> total3 d < 2 ^ 64 ->
+  array3D_coordsOf__ul_v3i OZ (Some i) (toO3 d) = toO3 (array3D_coordsOf__ul_v3i IZ i d).
+Proof.
+  destruct d as [dx dy dz]. unfold int_extent, total3. ounfold. intros (Hx & Hy & Hz) Hi Ht.
+  pose proof (rem_bound i dx ltac:(lia) ltac:(lia)).
+  assert (0 <= Z.quot i dx < dy * dz) by (apply quot_lt_bound; nia).
+  assert (dy * dz <= dx * dy * dz) by nia.
+  pose proof (rem_bound (Z.quot i dx) dy ltac:(lia) ltac:(lia)).
+  pose proof (quot_lt_bound (Z.quot i dx) dy dz ltac:(lia) ltac:(lia)).
+  rewrite (chk_u64 dx), (chk_u64 dy) by lia. cbv beta iota delta [o_bop z_bop].
+  chk_done.
 Qed.
